@@ -20,6 +20,7 @@ func init() {
 			"C16.3 every function that returns one of the stateful sorter/builder interfaces returns a fresh allocation, never a package-level instance. "+
 			"NOT decided: shared state inside arrow-go, pdata and the otel globals; 'decodes as if alone' follows only with determinism of those libraries.",
 		"arrow.DataType values, *arrow.Schema and arrow.Metadata are immutable after construction (arrow-go API contract)")
+	register("C14", &core.Rule{ID: "C14.17", Title: "package-level variables of the consumer's and the allocator's packages are immutable after init (a shared default limit)", Mod: core.ModRoot, Floor: 10, Run: c14_17})
 	register("C16", &core.Rule{ID: "C16.1", Title: "package-level variables are immutable after init", Mod: core.ModRoot, Floor: 60, Run: c16_1, Canary: c16_1Canary})
 	register("C16", &core.Rule{ID: "C16.2", Title: "sub-slices of package-level tables held in fields are never written", Mod: core.ModRoot, Floor: 2, Run: c16_2})
 	register("C16", &core.Rule{ID: "C16.3", Title: "stateful sorters/builders are fresh per instance", Mod: core.ModRoot, Floor: 8, Run: c16_3})
@@ -161,6 +162,12 @@ func init() {
 
 func c16_1(c *core.Ctx, p *core.Prog) {
 	c16_1On(c, p, rootFuncs(c, p), prodPkg)
+}
+
+// c14_17: the same audit over the packages of the consumer and its allocator: a limit (or any option) kept in a
+// package-level value that consumers share is changed for every later consumer by the options of one.
+func c14_17(c *core.Ctx, p *core.Prog) {
+	c16_1On(c, p, rootFuncs(c, p), func(pp string) bool { return pp == pkgArrowRecord || pp == pkgCommonArrow })
 }
 
 // c17_9: the same audit over the obfuscation processor's package (instances of the processor are the "streams").
